@@ -511,6 +511,9 @@ class Function(object):
         self.list_of_class_psd = list()
         self.add_class_constraints()
 
+        # A class LMI over an empty list of points (function never evaluated) is void: do not send it to the solver
+        self.list_of_class_psd = [psd_matrix for psd_matrix in self.list_of_class_psd if psd_matrix.shape[0] > 0]
+
     def add_class_constraints(self):
         """
         Warnings:
